@@ -87,6 +87,13 @@ def serve(inp, out):
                 pass
         _, status = os.waitpid(pid, 0)
         rf.close()
+        # scratch files of the child's I/O ops (it removes them itself unless it died)
+        import glob
+        for leftover in glob.glob('/dev/shm/verif-io-%d-*' % pid):
+            try:
+                os.unlink(leftover)
+            except OSError:
+                pass
         # only whole frames are forwarded
         p = 0
         while p + 4 <= len(buf):
